@@ -147,6 +147,57 @@ theorem pop_of_get? (d : Dict κ ν) (k : κ) (x : ν) (h : get? d k = some x) :
 theorem pop_none (d : Dict κ ν) (k : κ) (h : get? d k = none) : pop d k = none := by
   simp [pop, h]
 
+theorem get?_foldl_set_not_mem : ∀ (zs : List (Int × Int)) (d : Dict Int Int) (k : Int), k ∉ zs.map (·.1) →
+    get? (zs.foldl (fun d p => set d p.1 p.2) d) k = get? d k := by
+  intro zs
+  induction zs with
+  | nil => intro d k _; rfl
+  | cons z zs ih =>
+    intro d k hk
+    simp only [List.map_cons, List.mem_cons, not_or] at hk
+    simp only [List.foldl_cons]
+    rw [ih _ k hk.2, get?_set, if_neg hk.1]
+
+theorem get?_foldl_set_zip : ∀ (ks vs : List Int) (d : Dict Int Int), ks.Nodup → ks.length ≤ vs.length → ∀ x ∈ ks,
+    get? ((List.zip ks vs).foldl (fun d p => set d p.1 p.2) d) x = vs[ks.idxOf x]? := by
+  intro ks
+  induction ks with
+  | nil => intro vs d _ _ x hx; simp at hx
+  | cons k ks ih =>
+    intro vs d hnd hlen x hx
+    cases vs with
+    | nil => simp at hlen
+    | cons w ws =>
+      rw [List.nodup_cons] at hnd
+      simp only [List.zip_cons_cons, List.foldl_cons]
+      by_cases hxk : x = k
+      · subst hxk
+        have : x ∉ (List.zip ks ws).map (·.1) := by
+          intro hm
+          obtain ⟨z, hz, rfl⟩ := List.mem_map.1 hm
+          exact hnd.1 (List.of_mem_zip hz).1
+        rw [get?_foldl_set_not_mem _ _ _ this, get?_set]
+        simp
+      · have hxs : x ∈ ks := by
+          simp only [List.mem_cons] at hx
+          rcases hx with h | h
+          · exact absurd h hxk
+          · exact h
+        rw [ih ws _ hnd.2 (by simpa using hlen) x hxs]
+        have : (k :: ks).idxOf x = ks.idxOf x + 1 := by
+          have hkx : (k == x) = false := by simp; exact fun c => hxk c.symm
+          simp [List.idxOf_cons, hkx]
+        rw [this]
+        simp
+
+theorem get?_ofZip_not_mem (ks vs : List Int) (x : Int) (h : x ∉ ks) : get? (ofZip ks vs) x = none := by
+  unfold ofZip
+  rw [get?_foldl_set_not_mem]
+  · rfl
+  · intro hm
+    obtain ⟨z, hz, rfl⟩ := List.mem_map.1 hm
+    exact h (List.of_mem_zip hz).1
+
 theorem getD_eq (d : Dict κ ν) (k : κ) (dv : ν) : getD d k dv = (get? d k).getD dv := rfl
 
 end Py.Dict
